@@ -76,8 +76,13 @@ fn reference(c: &StreamCase) -> BTreeMap<(u64, u64), f64> {
         .collect()
 }
 
+thread_local! {
+    /// magnitude of the distances of the case being checked (weights are sums of f32 differences)
+    static SCALE: std::cell::Cell<f64> = const { std::cell::Cell::new(3.0) };
+}
+
 fn wtol(w: f64) -> f64 {
-    1e-6 * w.abs() + 1e-5
+    1e-6 * w.abs() + 3.4e-6 * SCALE.with(|s| s.get())
 }
 
 fn check_topn_result(c: &StreamCase, claims: &BTreeMap<(u64, u64), f64>, res: &HashMap<u64, Vec<TopNVotingElt>>) -> Result<(), Fail> {
@@ -190,8 +195,11 @@ fn canon(res: &HashMap<u64, Vec<TopNVotingElt>>) -> BTreeMap<u64, Vec<(u64, i64)
 
 pub fn check_stream(c: &StreamCase) -> CaseResult {
     SHARED_IDS.with(|s| s.set(c.shared_ids));
+    let mag = c.items.iter().filter_map(|it| it.2).fold(0.0f64, |m, d| m.max(d.abs() as f64));
+    SCALE.with(|s| s.set(if mag > 0.0 { mag } else { 3.0 }));
     let r = check_stream_inner(c);
     SHARED_IDS.with(|s| s.set(false));
+    SCALE.with(|s| s.set(3.0));
     r
 }
 
@@ -363,14 +371,25 @@ pub fn stream_case() -> impl Strategy<Value = StreamCase> {
     (1u8..=6, 1u8..=6).prop_flat_map(|(nq, nt)| {
         (
             proptest::collection::vec((0..nq, 0..nt, dist()), 0..40),
-            1usize..=4,
+            prop_oneof![12 => 1usize..=4, 1 => Just(usize::MAX), 1 => Just(usize::MAX / 2), 1 => Just(1usize << 40)],
             1usize..=4,
             prop_oneof![Just(f32::MAX), 0.3f32..3.0, (0u8..12).prop_map(|k| k as f32 * 0.25)],
             proptest::collection::vec(proptest::collection::vec(any::<u32>(), 40), 1..4),
             proptest::bool::weighted(0.25),
             proptest::bool::weighted(0.15),
+            prop_oneof![6 => Just(1.0f32), 1 => Just(1e-8f32), 1 => Just(1e-4f32), 1 => Just(1e4f32)],
         )
-            .prop_map(|(mut items, topn, min_votes, max_distance, perms, shared_ids, negative)| {
+            .prop_map(|(mut items, topn, min_votes, max_distance, perms, shared_ids, negative, unit)| {
+                // the metric's unit is arbitrary: the same structure at very small and large scales
+                let mut max_distance = max_distance;
+                if unit != 1.0 && !negative {
+                    for it in items.iter_mut() {
+                        it.2 = it.2.map(|d| d * unit);
+                    }
+                    if max_distance != f32::MAX {
+                        max_distance *= unit;
+                    }
+                }
                 if negative {
                     // a similarity-like metric reported as negated distance: all values in (-1, 0]
                     for it in items.iter_mut() {
